@@ -979,6 +979,93 @@ func batchProperty(t *rapid.T, name string, shares uint8, large bool, maxBatch i
 			vlib.Class(sub, "running-aggregation-compared")
 		}
 	}
+	// interleaved history on this one instance: the per-report steps of all
+	// valid reports, of one report with an altered proof element and of one
+	// abandoned report in a drawn order
+	if pick(t, 2, "pipeline") == 0 {
+		var reps []pipeReport
+		for i := range ms {
+			reps = append(reps, pipeReport{m: ms[i], nonce: nonces[i], rand: rands[i], stages: 3})
+		}
+		nValidReps := len(reps)
+		if l.proofLen > 0 {
+			b := cp(reports[0].ins[0])
+			idx := l.measLen + idxBiased(t, l.proofLen, 0, "pipe.pe")
+			x := getElt(b, idx, l.fs)
+			x.Add(x, big.NewInt(1)).Mod(x, l.p)
+			putElt(b, idx, l.fs, x)
+			reps = append(reps, pipeReport{m: ms[0], nonce: nonces[0], rand: rands[0], leader: b, stages: 3})
+		}
+		ab := pick(t, len(ms), "pipe.abandon")
+		reps = append(reps, pipeReport{m: ms[ab], nonce: nonces[ab], rand: rands[ab], stages: 1 + pick(t, 2, "pipe.abandon.at")})
+		// positions: a drawn permutation, so that altered / abandoned reports sit anywhere
+		perm := rapid.Permutation(seq(len(reps))).Draw(t, "pipe.perm")
+		var schedule []int
+		okind := pickFrom(t, []string{"all-PrepInit-first", "staggered", "reverse-completion", "shuffled", "sequential"}, "pipe.order")
+		switch okind {
+		case "all-PrepInit-first":
+			for st := 0; st < 3; st++ {
+				schedule = append(schedule, perm...)
+			}
+		case "staggered":
+			for step := 0; step < len(perm)+2; step++ {
+				for st := 0; st < 3; st++ {
+					if i := step - st; i >= 0 && i < len(perm) {
+						schedule = append(schedule, perm[i])
+					}
+				}
+			}
+		case "reverse-completion":
+			schedule = append(schedule, perm...)
+			for i := len(perm) - 1; i >= 0; i-- {
+				schedule = append(schedule, perm[i], perm[i])
+			}
+		case "shuffled":
+			var all []int
+			for st := 0; st < 3; st++ {
+				all = append(all, perm...)
+			}
+			for _, i := range rapid.Permutation(seq(len(all))).Draw(t, "pipe.shuffle") {
+				schedule = append(schedule, all[i])
+			}
+		default:
+			for _, r := range perm {
+				schedule = append(schedule, r, r, r)
+			}
+		}
+		var acc []bool
+		var pgot any
+		var perr error
+		p, st := vlib.Catch(func() { acc, pgot, perr = I.Pipeline(&vk, reps, schedule) })
+		detail := fmt.Sprintf("%s, %d reports (%d valid, altered at %d, abandoned last), order %s, schedule %v", c.desc, len(reps), nValidReps, nValidReps, okind, schedule)
+		if p != nil {
+			vlib.Report(t, "C19/panic/"+name+"/pipeline/"+vlib.PanicClass(p), fmt.Sprintf("%s: %v\n%s", detail, p, st))
+			return
+		}
+		var hv *harnessViol
+		if errors.As(perr, &hv) {
+			vlib.Report(t, hv.key, detail+": "+perr.Error())
+			return
+		}
+		for i := range reps {
+			wantAcc := i < nValidReps
+			if acc != nil && acc[i] != wantAcc {
+				vlib.Report(t, "C19/interleaved/"+name+"/verdict", fmt.Sprintf("%s: report %d accepted=%v, sequential model says %v", detail, i, acc[i], wantAcc))
+				return
+			}
+		}
+		if below, fits := aggRange(c, want); below && fits {
+			if perr != nil {
+				vlib.Report(t, "C19/interleaved/"+name+"/error", fmt.Sprintf("%s: %v", detail, perr))
+				return
+			}
+			if eq, _ := aggEqual(c, pgot, want); !eq {
+				vlib.Report(t, "C19/interleaved/"+name+"/aggregate", fmt.Sprintf("%s: Unshard = %v, want %s", detail, pgot, fmtVec(want)))
+				return
+			}
+		}
+		vlib.NonTrivial(sub, "interleaved:"+okind, []byte(c.desc), []byte(fmt.Sprint(schedule)), vk[:], []byte(fmt.Sprint(ms)))
+	}
 	if representable {
 		vlib.Class(sub, "aggregate-compared")
 	}
